@@ -1,7 +1,8 @@
 /* C07/C18 (second harness): libmy/my_fileset.c itself (#included) -- setfile change detection,
  * load / keep / unload of entries by name, destroy.
- * Shape (concrete): per generation the list of setfile lines (indices into a small name table,
- * REPEATS ALLOWED, relative and absolute spellings) and which files exist.
+ * Shape (concrete): per generation the list of setfile lines (indices into a small line table:
+ * "a", "b", "/d/c", "/d/a"; REPEATS ALLOWED; lines 0 and 3 spell the same file relatively and
+ * absolutely) and which files exist.
  * Solver variables: whether each generation's setfile differs in inode / mtime from the previous.
  * Environment: stat(2), fopen/getline/fclose hand out the current generation's lines;
  * qsort = insertion sort, bsearch = any matching element; dirname fixed.
@@ -30,7 +31,9 @@ static const int G_list[NG][MAXL] = GENS;
 static const unsigned G_exists[NG] = EXISTS;
 static unsigned long G_ino[NG], G_mtime[NG];
 static int G_gen;
-static const char *const L_text[NNAMES] = { "a\n", "b\n", "/d/c\n" };
+#define NLINES 4
+static const char *const L_text[NLINES] = { "a\n", "b\n", "/d/c\n", "/d/a\n" };	/* line 3: file a again, spelled absolutely */
+static const int L_name[NLINES] = { 0, 1, 2, 0 };
 static const char *const L_path[NNAMES] = { "/d/a", "/d/b", "/d/c" };
 
 static int name_index(const char *p)
@@ -134,7 +137,7 @@ static unsigned want_set(int g)
 	unsigned s = 0;
 	for (int i = 0; i < MAXL; i++) {
 		if (G_list[g][i] < 0) break;
-		if ((G_exists[g] >> G_list[g][i]) & 1) s |= 1u << G_list[g][i];
+		if ((G_exists[g] >> L_name[G_list[g][i]]) & 1) s |= 1u << L_name[G_list[g][i]];
 	}
 	return s;
 }
